@@ -85,8 +85,16 @@ func c08Check(u univ.Universe, root [2]string, st *c08Stats) (fails []string, ou
 					}
 				}
 			}
-			if pypiReqNamesPre(e.Requirement) {
-				preAllowed[i] = true
+		}
+		// pip (resolvelib 0.7, the modelled release) keeps the requirements of a candidate it later replaces in the
+		// criterion of the required package, so a prerelease specifier met on the way can legitimately admit a
+		// prerelease even if the requiring version is not in the final graph: any such requirement in the
+		// universe counts.
+		for _, v := range u.Vers {
+			for _, r := range v.Reqs {
+				if r.Pkg == g.Nodes[i].Version.Name && pypiReqNamesPre(r.Ver) {
+					preAllowed[i] = true
+				}
 			}
 		}
 	}
